@@ -299,7 +299,7 @@ fn run_tearing(t: &mut Tape, cx: &mut Cx) -> Result<(), String> {
     let width = [2usize, 4, 8][t.below(3) as usize];
     let writer_is_lib = t.below(2) == 0;
     let off = t.below(4) as usize * width; // aligned to width, not necessarily to 2*width
-    let iters: u64 = if cx.tier == Tier::Quick { 400_000 } else { 20_000_000 };
+    let iters: u64 = if cx.tier == Tier::Quick { 400_000 } else { 150_000_000 };
     note!(cx, "tearing: width {} offset {} {} x{}", width, off, if writer_is_lib { "library writes, atomic reader" } else { "atomic writer, library reads" }, iters);
     cx.nt("tearing_detector");
     let cont = Aligned::new(128);
